@@ -429,4 +429,17 @@ theorem tie_breakerGate (ctxDone brkOpen : Bool) :
       "return h.brk.DoWithAcceptableCtx(ctx, func() error { return next(ctx, cmd) }, acceptable)"] := by
   cases ctxDone <;> cases brkOpen <;> decide
 
+/-! ### Round 5e: no answer without asking Redis; the state of an instance -/
+
+/-- **AcquireCtx and ReleaseCtx never return before their script run**: the returns in front of the
+`ScriptRunCtx` statement, translated over the values of their conditions, are `none` for ALL condition values —
+no client-side fast path (seeded C19-7: a local lease deadline that made a holder's Release answer false without
+asking Redis).  This is what `realG` (first thing: send EVALSHA) and `every_call_asks_redis` rest on. -/
+theorem tie_noEarlyReturn (cs : List Bool) : acquireEarly cs = none ∧ releaseEarly cs = none := ⟨rfl, rfl⟩
+
+/-- **all the state of a `RedisLock`**: the store, the `seconds` word, key and id — the model's `LockCfg` (key, id),
+`St.secs` and the shared store; no client-side lease bookkeeping, no cached arguments (seeded C19-5, C19-7) -/
+theorem tie_lockFields :
+    lockFields = [("store", "*Redis"), ("seconds", "uint32"), ("key", "string"), ("id", "string")] := by decide
+
 end GoZero.C19.Tie
